@@ -156,6 +156,16 @@ def set_config(config_path: PathStr, arg_list: typing.Sequence[str]) -> None:
         config_file.write(json.dumps(config, indent=4, sort_keys=True))
 
 
+def to_number(token: str) -> typing.Union[int, float]:
+    """
+    Converts a numeric token to int if it's integer-valued, otherwise to float.
+    """
+    value = float(token)
+    if value.is_integer():
+        return int(value)
+    return value
+
+
 def is_option(token: str) -> bool:
     """
     Options start with a dash - but negative numbers are values, not options.
@@ -178,7 +188,8 @@ def generate(arg_list: typing.Sequence[str]) -> typing.Dict[str, typing.Any]:
                     value = arg_list[j]
                     if is_option(value):
                         break
-                    values.append(float(value) if is_number(value) else value)
+                    values.append(
+                        to_number(value) if is_number(value) else value)
                 if len(values) == 1:
                     values = values[0]
                 data[arg] = values
